@@ -160,6 +160,58 @@ def check_funnel(ctx, tu):
     check_listener_management(ctx, tu, 'EventDispatcherBase', 'C04.F')
 
 
+# per-event helper -> (list operation it stands for, what that operation answers on an empty list; None = returns nothing)
+PER_EVENT = {'removeListener': ('remove', False), 'ownsHandle': ('ownsHandle', False), 'hasAnyListener': ('empty', None),
+             'forEach': ('forEach', None), 'forEachIf': ('forEachIf', True)}
+
+
+def check_per_event_delegation(ctx, tu, cls, rule):
+    """"Per event every listener-management operation behaves exactly like the corresponding callback-list operation": the helper
+    looks the list of its own event up, applies the one list operation to *that list object* (not to a copy of it: handles and callback
+    references handed to the visitor have to denote the registered listeners) with its own arguments, and when the event has no list it
+    answers what the operation answers on an empty list."""
+    for name, (op, empty_result) in PER_EVENT.items():
+        for f in tu.fns_named(cls + '::' + name):
+            finds = [n for n in f.calls() if (f.callee_key(n) or '').endswith('::doFindCallableList')]
+            ops = [n for n in f.calls() if (f.callee(n) or {}).get('name') == op and (f.callee_key(n) or '').split('::')[0] in ('CallbackListBase', 'HeterCallbackListBase')]
+            ok = len(finds) == 1 and len(ops) == 1 and arg_is_param(f, f.call_args(finds[0])[0], f.params[0]['id'])
+            detail = 'lookups: %d, %s calls on a list: %d' % (len(finds), op, len(ops))
+            if ok:
+                # the object of the list operation is the looked-up element itself: *ptr where ptr is the local initialised by the lookup
+                obj = f.call_obj(ops[0])
+                po = path(f, obj) if obj else ()
+                vid = root_var_id(po)
+                vd = f.var_decls().get(vid) if vid is not None else None
+                src = f.strip_all_casts(vd['init']) if vd and vd.get('init') else None
+                vt = f.tu.type(vd['t']) if vd else None
+                is_ptr_or_ref = bool(vt) and (vt.get('ptr') is not None or vt.get('ref'))
+                ok = src == finds[0] and is_ptr_or_ref
+                detail = 'the %s call is made on %s' % (op, pstr(po) + ('' if ok else ' (not the object the lookup returned - a copy has its own nodes and handles)'))
+                # own arguments, in order
+                want = [p['id'] for p in f.params[1:]]
+                got = [arg_var(f, a) for a in f.call_args(ops[0])]
+                if got != want:
+                    ok = False
+                    detail += '; arguments %s' % [pstr(path(f, a)) for a in f.call_args(ops[0])]
+            ctx.ob(rule, f, '%s applies %s to the looked-up list of its own event, with its own arguments' % (name, op), ok, detail=detail,
+                   key_detail='per-event delegation')
+            if ok and empty_result is not None:
+                try:
+                    fm = F.formula(f, inline=False)
+                    ats = F.atoms(fm)
+                    la = [a for a in ats if '(' not in a]
+                    oa = [a for a in ats if ('%s(' % op) in a or ('.%s' % op) in a or ('->%s' % op) in a]
+                    okr = len(la) == 1 and len(oa) == 1 and len(ats) == 2
+                    if okr:
+                        want_f = ('or', ('and', ('atom', la[0]), ('atom', oa[0])), ('and', ('not', ('atom', la[0])), ('const', empty_result)))
+                        okr = F.equivalent(fm, want_f)[0]
+                    shown = F.show(fm)
+                except F.Unsupported as e:
+                    okr, shown = False, 'not extractable: %s' % e
+                ctx.ob(rule, f, '%s answers the list\'s own result, and %s when the event has no list (as %s does on an empty list)' % (name, empty_result, op),
+                       okr, detail='extracted result: %s' % shown, key_detail='per-event empty result')
+
+
 def check_listener_management(ctx, tu, cls, rule, inv_key='CallbackListBase::operator()'):
     """Lookup and per-event listener management of a dispatcher class map exactly onto the list operations."""
     for f in tu.fns_named(cls + '::doFindCallableListHelper'):
@@ -199,6 +251,12 @@ def check_listener_management(ctx, tu, cls, rule, inv_key='CallbackListBase::ope
                 objp = path(f, f.call_obj(n))
                 # eventCallbackListMap[event]
                 objn = f.strip_all_casts(f.call_obj(n))
+                # the list may first be bound to a local reference: `auto & list = eventCallbackListMap[event]; list.append(...)`
+                if f.nodes[objn]['cls'] == 'DeclRefExpr' and f.decl(objn)['kind'] == 'var':
+                    vd = f.var_decls().get(f.decl(objn)['id'])
+                    vt = f.tu.type(vd['t']) if vd else None
+                    if vd and vd.get('init') and vt and vt.get('ref'):
+                        objn = f.strip_all_casts(vd['init'])
                 okobj = False
                 if f.nodes[objn]['cls'] == 'CXXOperatorCallExpr' and f.nodes[objn].get('op') == '[]':
                     oa = f.nodes[objn]['args']
@@ -215,6 +273,7 @@ def check_listener_management(ctx, tu, cls, rule, inv_key='CallbackListBase::ope
         ok = len(calls) == 1 and len(finds) == 1 and arg_is_param(f, f.call_args(finds[0])[0], f.params[0]['id']) \
             and arg_is_param(f, f.call_args(calls[0])[0], f.params[1]['id'])
         ctx.ob(rule, f, 'removeListener removes the given handle from the list of the given event', ok)
+    check_per_event_delegation(ctx, tu, cls, rule)
     for f in tu.fns_named(cls + '::hasAnyListener'):
         finds = [n for n in f.calls() if (f.callee_key(n) or '').endswith('::doFindCallableList')]
         em = [n for n in f.calls() if (f.callee(n) or {}).get('name') == 'empty']
